@@ -202,12 +202,12 @@ def w2 (tag1 tag2 : String) : Ty := .struct (.cons "A" (tg tag1) false (.int .i3
 def both (ty : Ty) (v : Val) : String × String :=
   (toHex (Model.Thrift.encode .compact ty v), toHex (Spec.Thrift.encode .compact ty v))
 
--- field id 0: the model takes the delta short form with delta 0 (no id on the wire), the specification the long form
+-- field id 0 / negative field id: since the fix 988f9bb (short form only for a Delta in 1..15) the writer takes the long
+-- form like the specification (before: delta 0 with no id on the wire / delta -1 truncated into the high nibble)
 #eval both (w1 "0" (.int .i32)) (.struct (.cons (.int 5) .nil))
-#guard (both (w1 "0" (.int .i32)) (.struct (.cons (.int 5) .nil))) == ("050a00", "05000a00")
--- negative field id: delta -1 truncated into the high nibble
+#guard (both (w1 "0" (.int .i32)) (.struct (.cons (.int 5) .nil))) == ("05000a00", "05000a00")
 #eval both (w1 "-1" (.int .i32)) (.struct (.cons (.int 5) .nil))
-#guard (both (w1 "-1" (.int .i32)) (.struct (.cons (.int 5) .nil))) == ("f50a00", "05010a00")
+#guard (both (w1 "-1" (.int .i32)) (.struct (.cons (.int 5) .nil))) == ("05010a00", "05010a00")
 -- duplicate ids: the second header has delta 0
 #eval both (w2 "1" "1") (.struct (.cons (.int 5) (.cons (.int 6) .nil)))
 #guard (both (w2 "1" "1") (.struct (.cons (.int 5) (.cons (.int 6) .nil)))).1
